@@ -213,8 +213,9 @@ func (t *PageTree) traversePageNode(node core.Dict, parent core.Dict) error {
 				return fmt.Errorf("invalid kid type: %T", kidResolved)
 			}
 
-			// Recursively traverse child (passing current node as parent)
-			if err := t.traversePageNode(kidDict, node); err != nil {
+			// Recursively traverse child; what it inherits is what this node
+			// inherits, overridden by what this node states itself
+			if err := t.traversePageNode(kidDict, inheritedAttributes(node, parent)); err != nil {
 				return err
 			}
 		}
@@ -229,6 +230,22 @@ func (t *PageTree) traversePageNode(node core.Dict, parent core.Dict) error {
 	}
 
 	return nil
+}
+
+// inheritedAttributes returns the inheritable page attributes in force below node:
+// those stated by node itself, else those handed down from its ancestors.
+func inheritedAttributes(node core.Dict, fromAncestors core.Dict) core.Dict {
+	inherited := make(core.Dict)
+	for _, key := range []string{"Resources", "MediaBox", "CropBox", "Rotate"} {
+		if v := node.Get(key); v != nil {
+			inherited[key] = v
+		} else if fromAncestors != nil {
+			if v := fromAncestors.Get(key); v != nil {
+				inherited[key] = v
+			}
+		}
+	}
+	return inherited
 }
 
 // Page represents a single PDF page
